@@ -250,6 +250,29 @@ func scenarios() []scenario {
 					}
 				},
 				check: func(o *outcome, stuck []string) string { return expectAll(o, stuck, map[int]int{1: 1, 2: 1}, 0) }},
+			scenario{name: fmt.Sprintf("send-close|select-recv cap=%d", cp), cap: cp,
+				build: func(ch *Chan, o *outcome) map[string]func() {
+					return map[string]func(){
+						"S": func() { send(ch, 7); ChanClose(ch) },
+						"R": func() {
+							var v int
+							_, ok := Select(ChanOp{C: ch, Val: unsafe.Pointer(&v), Size: int32(isz)})
+							o.recv["R"] = append(o.recv["R"], recvRes{v, ok})
+						},
+					}
+				},
+				check: func(o *outcome, stuck []string) string { return expectAll(o, stuck, map[int]int{7: 1}, 0) }},
+			scenario{name: fmt.Sprintf("select-send|recv cap=%d", cp), cap: cp,
+				build: func(ch *Chan, o *outcome) map[string]func() {
+					return map[string]func(){
+						"S": func() {
+							x := 9
+							Select(ChanOp{C: ch, Val: unsafe.Pointer(&x), Size: int32(isz), Send: true})
+						},
+						"R": func() { o.recv["R"] = append(o.recv["R"], recv(ch)) },
+					}
+				},
+				check: func(o *outcome, stuck []string) string { return expectAll(o, stuck, map[int]int{9: 1}, 0) }},
 			scenario{name: fmt.Sprintf("close|recv cap=%d", cp), cap: cp,
 				build: func(ch *Chan, o *outcome) map[string]func() {
 					return map[string]func(){
